@@ -1,28 +1,34 @@
 import Uflow.Driver.CodecMode
 
 /-! `uflow_driver <mode>`: runs a line-protocol script (stdin) against the Lean model and prints
-one output line per operation. Stateless modes map a line to a line; stateful modes thread a
-state. -/
+one output line per operation. A line starting with `===` separates cases: it is echoed and the
+machine is reset to its initial state. -/
 
 open Uflow.Driver
 
 def tokens (line : String) : List String :=
   (line.trimAscii.toString.splitOn " ").filter (· ≠ "")
 
-partial def loopStateless (h : IO.FS.Stream) (out : IO.FS.Stream) (f : List String → String) : IO Unit := do
+partial def loop {σ : Type} (h : IO.FS.Stream) (out : IO.FS.Stream) (init : σ)
+    (step : σ → List String → σ × String) (s : σ) : IO Unit := do
   let line ← h.getLine
   if line.isEmpty then return ()
   let toks := tokens line
   match toks with
-  | [] => loopStateless h out f
+  | [] => loop h out init step s
   | t :: _ =>
-    if t.startsWith "#" then loopStateless h out f else
-    out.putStrLn (f toks)
-    loopStateless h out f
+    if t.startsWith "#" then loop h out init step s
+    else if t.startsWith "===" then
+      out.putStrLn line.trimAscii.toString
+      loop h out init step init
+    else
+      let (s', o) := step s toks
+      out.putStrLn o
+      loop h out init step s'
 
 def main (args : List String) : IO UInt32 := do
   let stdin ← IO.getStdin
   let stdout ← IO.getStdout
   match args with
-  | "codec" :: _ => loopStateless stdin stdout codecOp; return 0
+  | "codec" :: _ => loop stdin stdout () (fun _ t => ((), codecOp t)) (); return 0
   | _ => IO.eprintln "usage: uflow_driver <mode>"; return 2
